@@ -411,6 +411,8 @@ fn invalid_arguments(cx: &CaseCtx, rep: &mut Report, rng: &mut Rng) {
 		("filter_bbox", "bbox missing"),
 		("filter_bbox bbox=[1,2,3]", "wrong arity"),
 		("filter_bbox bbox=[1,2,3,4,5]", "wrong arity"),
+		("filter_bbox bbox=[1,2,x,3,4]", "wrong arity and non-numeric"),
+		("filter_bbox bbox=[west,1,2,3,4]", "wrong arity and non-numeric"),
 		("filter_bbox bbox=5", "wrong arity"),
 		("filter_bbox bbox=[a,b,c,d]", "non-numeric"),
 		("filter_bbox bbox=[10,0,5,1]", "reversed longitude"),
